@@ -223,9 +223,11 @@ def run(ctx):
                     if not creates:
                         if name in maybe:
                             ctx.count('maybe_suspended_skipped')
-                        elif budget >= 1:
+                        elif math.floor(r['tokens'] - 1e-6) >= 1:      # a bucket a rounding error short of 1 may wait
                             viol('no-request-with-budget', '%s: target %d current %d, budget %.3f but nothing requested' % (
                                 name, r['count'], len(cur), r['tokens']))
+                        elif budget >= 1:
+                            ctx.count('rounding_boundary_waits')
                         else:
                             ctx.count('rate_limited')
                             flags['limited'] = True
